@@ -338,6 +338,33 @@ def innerOpDia (conj : R → R) (left op right : Dia R) (scalarIsKet : Bool) : R
   innerOpDiaCore conj (innerIsKet left.rows op.rows scalarIsKet) left op right
 end diaInner
 
+/-! ### `isherm_dia`: is a matrix stored by diagonals Hermitian? -/
+section diaHerm
+variable {R : Type}
+
+/-- the check `isherm_dia` makes for the stored diagonal number `di` (value `d`): the main diagonal against itself;
+another diagonal against the first stored diagonal with the opposite offset — skipped when that one comes earlier
+(the pair was compared then), against zero when there is none.  `conjEq a b` is the kernel's `_conj_feq` (a = conj b
+up to the tolerance), `isZero` its `_feq_zero`. -/
+def diagOk (conjEq : R → R → Bool) (isZero : R → Bool) (m : Dia R) (di : Nat) (d : Int × (Nat → R)) : Bool :=
+  if d.1 = 0 then (List.range m.cols).all fun c => conjEq (d.2 c) (d.2 c)
+  else
+    let start := (max 0 d.1).toNat
+    let stop := (min (m.cols : Int) ((m.rows : Int) + d.1)).toNat
+    -- `other_diag < diag`: the first stored diagonal with the opposite offset comes earlier
+    if (m.diags.take di).any (fun e => d.1 == -e.1) then true
+    else match m.diags.find? (fun e => d.1 == -e.1) with
+      | some e => (List.range (stop - start)).all fun c => conjEq (d.2 (c + start)) (e.2 (c + (max 0 e.1).toNat))
+      | none => (List.range (stop - start)).all fun c => isZero (d.2 (c + start))
+
+def ishermDia (conjEq : R → R → Bool) (isZero : R → Bool) (m : Dia R) : Bool :=
+  if m.rows ≠ m.cols then false
+  else (List.range m.diags.length).all fun di =>
+    match m.diags[di]? with
+    | some d => diagOk conjEq isZero m di d
+    | none => true
+end diaHerm
+
 /-! ### the dispatcher: a specialisation built from a registered one and conversions -/
 
 /-- converters between formats preserve the matrix; `Repr f` is the carrier of format `f` -/
